@@ -4,6 +4,8 @@ import importlib
 import inspect
 
 
+OUTPUT = "Filters.lean"      # the generated file (harness/core.py: a failure of this translator concerns the properties that import it)
+
 def generate(build_dir):
     report = importlib.import_module("cutadapt.report")
     predicates = importlib.import_module("cutadapt.predicates")
